@@ -23,7 +23,7 @@ LAYOUTS = {
 BLOCK_EDGES = {"shared_edge": [[0, 1], [0, 3]]}
 
 
-def h_realloc(ctx, layout, segsites, through="infer+rescale"):
+def h_realloc(ctx, layout, segsites, through="infer+rescale", nan_first=False):
     """Real infer (flip block) followed by the real rescale up to reallocate_unphased."""
     from symx.dom import sym, Q
     muts = LAYOUTS[layout]
@@ -63,6 +63,11 @@ def h_realloc(ctx, layout, segsites, through="infer+rescale"):
         def prop_mut(order, post, phase, *a):
             if a[-1]:
                 for m in order:
+                    if nan_first and int(m) == 0:
+                        # the projection was rejected numerically: phase undefined
+                        phase[m] = math.nan
+                        phases[int(m)] = None
+                        continue
                     p = sym(f"phase{m}", "nonneg")
                     ctx.assume(p <= 1)
                     phase[m] = p
@@ -99,6 +104,13 @@ def h_realloc(ctx, layout, segsites, through="infer+rescale"):
         want = {e: Q.of(0) for e in unph_edges}
         for m, (b, _) in enumerate(muts):
             i, j = int(obj.block_edges[b, 0]), int(obj.block_edges[b, 1])
+            if phases[m] is None:
+                # undefined phase: the singleton is placed on the block's first edge and must
+                # still count exactly once
+                ctx.prove(f"realloc:mutation[{m}]:undefined_phase_placed_on_first_edge",
+                          int(obj.mutation_edges[m]) == i)
+                want[i] = want[i] + 1
+                continue
             want[i] = want[i] + phases[m]
             want[j] = want[j] + (1 - phases[m])
         for e in sorted(unph_edges):
@@ -121,7 +133,7 @@ def h_realloc(ctx, layout, segsites, through="infer+rescale"):
         for m, (b, _) in enumerate(muts):
             placed = int(obj.mutation_edges[m])
             k = sum(1 for bb, _ in muts if bb == b)
-            if k == 1 and layout not in BLOCK_EDGES:
+            if k == 1 and layout not in BLOCK_EDGES and phases[m] is not None:
                 ctx.prove(f"realloc:mutation[{m}]:placed_edge_gets_larger_share",
                           Q.of(used[placed, 0]) >= Q.of(1) / 2)
             ctx.tag("flipped" if placed == int(obj.block_edges[b, 1]) else "kept")
@@ -134,7 +146,7 @@ def h_realloc(ctx, layout, segsites, through="infer+rescale"):
                 i = int(obj.block_edges[b, 0])
                 want = Q.of(0)
                 for m in ms:
-                    p = phases[m]      # P[under first parent] as fitted
+                    p = phases[m] if phases[m] is not None else 1   # P[under first parent]
                     want = want + p
                 ctx.prove(f"realloc:block[{b}]:first_edge_gets_sum_of_fitted_probabilities",
                           Q.of(used[i, 0]) == want)
@@ -146,6 +158,8 @@ def cases(tier):
         for seg in (False, True):
             cs.append(Case(f"realloc:{lay}:seg{int(seg)}", h_realloc,
                            dict(layout=lay, segsites=seg)))
+            cs.append(Case(f"realloc:{lay}:seg{int(seg)}:nan", h_realloc,
+                           dict(layout=lay, segsites=seg, nan_first=True)))
     return cs
 
 
@@ -157,7 +171,8 @@ def run(tier, seed, t0):
         "C23", tier, seed, t0, outs,
         explanation="The real ExpectationPropagation.infer (phase flip and placement) followed by "
         "the real rescale up to and including phasing.reallocate_unphased is executed with "
-        "symbolic fitted phases in [0,1] and symbolic counts on phased edges.  z3 proves on every "
+        "symbolic fitted phases in [0,1] (optionally one undefined / NaN phase, which a "
+        "numerically rejected projection leaves behind) and symbolic counts on phased edges.  z3 proves on every "
         "flip pattern: phased edges and spans unchanged, each block's two edges receive exactly "
         "its number of singletons in total, the array not selected by match_segregating_sites is "
         "untouched, and the edge a singleton is finally placed on receives the share >= 1/2.",
@@ -169,8 +184,7 @@ def run(tier, seed, t0):
                 "match_segregating_sites": "both"},
         stubs=["iterate / propagate_mutations replaced on the instance (phases arbitrary in [0,1])",
                "rescale cut after reallocate_unphased (mutational_timescale raises a sentinel)"],
-        assumptions=["fitted phases are not NaN (a NaN phase makes reallocate_unphased skip the "
-                     "singleton and then trip its own conservation assert: see C35 notes)"],
+        assumptions=["at most the first singleton has an undefined (NaN) phase"],
         out_of_scope=["the rest of rescale (C25)"],
         validated=npx.validate(),
         expect_tags=["flipped", "kept"],
@@ -185,10 +199,11 @@ def replay(payload):
     from tsdate import variational, phasing
     from symx import skeletons as SK
     bad = []
-    for ts in (SK.diploid_cherry(), SK.diploid_two_tree(), SK.diploid_three_tree(),
-               _many_singletons()):
+    for ts, mu, its in ((SK.diploid_cherry(), 0.1, 3), (SK.diploid_two_tree(), 0.1, 3),
+                        (SK.diploid_three_tree(), 0.1, 3), (_many_singletons(), 0.1, 3),
+                        (_undefined_phase_input(), 1e-8, 25)):
         for seg in (False, True):
-            ep = variational.ExpectationPropagation(ts, mutation_rate=0.1, singletons_phased=False)
+            ep = variational.ExpectationPropagation(ts, mutation_rate=mu, singletons_phased=False)
             captured = {}
             orig = variational.reallocate_unphased
 
@@ -199,11 +214,15 @@ def replay(payload):
             variational.reallocate_unphased = spy
             try:
                 try:
-                    ep.infer(ep_iterations=3, max_shape=1000, rescale_intervals=2,
+                    ep.infer(ep_iterations=its, max_shape=1000, rescale_intervals=2,
                              rescale_iterations=1, regularise=True, rescale_segsites=seg)
                 except AssertionError as e:
                     if "rescaling intervals" not in repr(e):
-                        raise
+                        # an internal assertion on a valid input is itself the failure
+                        bad.append((seg, "infer/rescale raised", repr(e)[:80],
+                                    "singletons with undefined phase:",
+                                    int(np.sum(np.isnan(ep.mutation_phase)))))
+                        continue
             finally:
                 variational.reallocate_unphased = orig
             if "lik" not in captured:
@@ -214,9 +233,13 @@ def replay(payload):
             want = {}
             for m in range(ts.num_mutations):
                 b = ep.mutation_blocks[m]
-                if b < 0 or np.isnan(ep.mutation_phase[m]):
+                if b < 0:
                     continue
                 placed = int(ep.mutation_edges[m])
+                if np.isnan(ep.mutation_phase[m]):
+                    # undefined phase: counted once, on the edge it is placed on
+                    want[placed] = want.get(placed, 0.0) + 1.0
+                    continue
                 i, j = (int(x) for x in ep.block_edges[b])
                 other = j if placed == i else i
                 want[placed] = want.get(placed, 0.0) + ep.mutation_phase[m]
@@ -226,6 +249,38 @@ def replay(payload):
                     bad.append((seg, "edge", e, "credited", float(lik[e, 0]), "expected", float(w)))
     return bool(bad), ("edges whose credited singleton mass is not (final phase on the placed "
                        "edge, rest on the other): " + str(bad[:5]))
+
+
+def _undefined_phase_input(n_old=200, n_root=200, L=1e6):
+    """Two diploid individuals (0,1) and (2,3), two trees.  On the one-base-pair first tree
+    node 1 hangs directly off a root with hundreds of mutations while node 0's parent is very
+    young: the unphased projection for the singletons of that block is rejected numerically
+    and their phase stays NaN."""
+    import tskit
+    t = tskit.TableCollection(sequence_length=L)
+    for _ in range(2):
+        t.individuals.add_row()
+    for n in range(4):
+        t.nodes.add_row(flags=tskit.NODE_IS_SAMPLE, time=0, individual=n // 2)
+    for tm in (1.0, 2.0, 4.0, 3.0):
+        t.nodes.add_row(flags=0, time=tm)
+    for l, r, p_, c in ((0, L, 4, 0), (0, L, 4, 2), (0, L, 5, 4), (0, L, 5, 3), (0, 1, 6, 5),
+                        (0, 1, 6, 1), (1, L, 7, 5), (1, L, 7, 1)):
+        t.edges.add_row(l, r, p_, c)
+    rng = np.random.default_rng(1)
+    pos_a = np.sort(rng.uniform(0, 1, n_old + n_root))
+    nodes_a = np.array([1] * n_old + [5] * n_root)
+    rng.shuffle(nodes_a)
+    pos_b = np.sort(rng.uniform(1, L, 9))
+    nodes_b = np.array([1] * 3 + [3] * 2 + [5] * 4)
+    rng.shuffle(nodes_b)
+    for pos, node in zip(np.append(pos_a, pos_b), np.append(nodes_a, nodes_b)):
+        s_ = t.sites.add_row(position=pos, ancestral_state="0")
+        t.mutations.add_row(site=s_, node=int(node), derived_state="1")
+    t.sort()
+    t.build_index()
+    t.compute_mutation_parents()
+    return t.tree_sequence()
 
 
 def _many_singletons():
